@@ -85,10 +85,31 @@ static void run_config(const Config & c, uint64_t seed, long n_iid, int n_grid)
   }
   if (accepted_ref && accepted_port) {
     if (rd0 != pd0) record(st.mm, lab + "|init-draws", fmt("initialisation consumed %zu (reference) vs %zu (port) deviates", rd0, pd0));
-    // 1e-6: the reference's integrands clamp energies below 50 eV in place (see the recorded finding), which
-    // perturbs the windowed quadrature at the 1e-8 level; a wrong integrand or bound is >= 1e-3
-    if (std::fabs(rtoall - pars.toallevents) > 1e-6 * std::fabs(rtoall))
-      record(st.mm, lab + "|toallevents", fmt("toallevents reference %.12g, port %.12g", rtoall, pars.toallevents));
+    if (std::fabs(rtoall - pars.toallevents) > 1e-9 * std::fabs(rtoall)) {
+      // root-cause probe: the reference's integrands clamp energies below 50 eV *in place* (recorded finding);
+      // if the ratio agrees once that side effect is switched off in the shim, this is the same root cause
+      bool same_without_clamp = false;
+      if (ref_state().port_fermi) {
+        ref_state().inplace_clamp = false;
+        double a1 = c.e1, a2 = c.e2, r1, r2, rt;
+        int lv, ier2 = 0;
+        vf_setenrange_(&a1, &a2);
+        tape.rewind();
+        if (ref_genbbsub(1, c.name, c.level, c.mode, -1, ier2) && ier2 == 0) {
+          vf_getenrange_(&r1, &r2, &rt, &lv);
+          same_without_clamp = std::fabs(rt - pars.toallevents) <= 1e-9 * std::fabs(rt);
+        }
+        ref_state().inplace_clamp = true;
+        a1 = c.e1; a2 = c.e2;
+        vf_setenrange_(&a1, &a2);
+        tape.rewind();
+        ref_genbbsub(1, c.name, c.level, c.mode, -1, ier2); // back to the faithful reference state
+      }
+      if (same_without_clamp)
+        record(st.mm, "dbd|lepton-below-50eV-clamped-in-reference", lab + fmt(": toallevents reference %.12g, port %.12g (equal once the in-place clamp is disabled)", rtoall, pars.toallevents));
+      else
+        record(st.mm, lab + "|toallevents", fmt("toallevents reference %.12g, port %.12g", rtoall, pars.toallevents));
+    }
     if (std::fabs(re1 - pars.ebb1) > 1e-12 || std::fabs(re2 - pars.ebb2) > 1e-12)
       record(st.mm, lab + "|range", fmt("clamped range reference [%.12g,%.12g], port [%.12g,%.12g]", re1, re2, pars.ebb1, pars.ebb2));
     if (rlevelE != pars.levelE) record(st.mm, lab + "|levelE", fmt("levelE reference %d, port %d", rlevelE, pars.levelE));
